@@ -83,6 +83,8 @@ def r1(ctx):
 def r2(ctx):
     P = ctx.project
     n = 0
+    from .shared import dict_mapper
+    MAPPER = dict_mapper(P)[0]
     for name in ("_build_model_matrix", "_enforce_structure", "_encode_evaled_factor"):
         f = P.func(f"{MAT}.{name}")
         if "drop_rows" not in param_names(f.node):
@@ -99,7 +101,7 @@ def r2(ctx):
                     if c.func.attr in cls.methods:
                         callee = cls.methods[c.func.attr]
                         break
-            is_encoder = norm(c.func) == "factor.metadata.encoder" or (isinstance(c.func.value, ast.Call) and norm(c.func.value.func) == "map_dict")
+            is_encoder = norm(c.func) == "factor.metadata.encoder" or (isinstance(c.func.value, ast.Call) and norm(c.func.value.func) == MAPPER)
             if callee is not None and "drop_rows" in param_names(callee.node):
                 n += 1
                 ctx.look()
@@ -114,9 +116,17 @@ def r2(ctx):
                 a = kwarg(c, "drop_rows")
                 ctx.check(isinstance(a, ast.Name) and a.id == "drop_rows", "C07.R2", "custom encoders receive the frozen drop sequence", f.module.line(c),
                           ctx.construct(f, text="encoder(drop_rows=)"), f"drop_rows argument is `{norm(a) if a is not None else 'missing'}`")
-            if isinstance(c, ast.Call) and isinstance(c.func, ast.Call) and norm(c.func.func) == "map_dict":
+            if isinstance(c, ast.Call) and isinstance(c.func, ast.Call) and norm(c.func.func) == MAPPER:
                 n += 1
-                ok = any(isinstance(a, ast.Name) and a.id == "drop_rows" for a in c.args)
+                from ..util import single_assignment_env
+                env_ = single_assignment_env(f.node)
+                flat_ = []
+                for a in c.args:   # `*shared` where shared = (…, drop_rows, …) passes its elements positionally
+                    if isinstance(a, ast.Starred) and isinstance(a.value, ast.Name) and isinstance(env_.get(a.value.id), (ast.Tuple, ast.List)):
+                        flat_ += list(env_[a.value.id].elts)
+                    else:
+                        flat_.append(a)
+                ok = any(isinstance(a, ast.Name) and a.id == "drop_rows" for a in flat_)
                 ctx.check(ok, "C07.R2", f"{norm(c.func.args[0])} receives the frozen drop sequence", f.module.line(c),
                           ctx.construct(f, text=f"{norm(c.func.args[0])}(drop_rows)"), "drop_rows is not among the positional arguments")
     ctx.floor("C07.R2", n, 8, "calls taking the drop sequence on the build path")
